@@ -321,6 +321,9 @@ func c04Long(r *Rng) Sx {
 		return out
 	}
 	ng := r.Range(3, 48)
+	if r.Chance(1, 6) { // Router.Use has no limit: with the 62 middleware a route may have, the chain reaches 128 and more
+		ng = r.Range(60, 90)
+	}
 	gm := r.Range(0, 30)
 	rm := r.Range(64-ng-gm, 61-gm)
 	if rm < 0 {
